@@ -16,6 +16,13 @@ declare -A CHECKS=(
  [C13-m3]="C13" [C13-m4]="C13" [C14-m3]="C14" [C14-m4]="C14" [C15-m3]="C15 C18" [C15-m4]="C15"
  [C16-m3]="C16" [C16-m4]="C16" [C17-m3]="C17" [C17-m4]="C17 C18" [C18-m3]="C18" [C18-m4]="C18"
  [C19-m3]="C19" [C19-m4]="C19 C06"
+ [C01-m5]="C01 C08" [C01-m6]="C01" [C02-m5]="C02 C06" [C02-m6]="C02 C04" [C03-m5]="C03" [C03-m6]="C03"
+ [C04-m5]="C04" [C04-m6]="C04" [C05-m5]="C05 C01" [C05-m6]="C05" [C06-m5]="C06" [C06-m6]="C06"
+ [C07-m5]="C07" [C07-m6]="C07 C10" [C08-m5]="C08" [C08-m6]="C08 C01" [C09-m5]="C09" [C09-m6]="C09"
+ [C10-m5]="C10" [C10-m6]="C10" [C11-m5]="C11" [C11-m6]="C11" [C12-m5]="C12" [C12-m6]="C12"
+ [C13-m5]="C13" [C13-m6]="C13" [C14-m5]="C14" [C14-m6]="C14 C10" [C15-m5]="C15" [C15-m6]="C15"
+ [C16-m5]="C16" [C16-m6]="C16 C01" [C17-m5]="C17" [C17-m6]="C17" [C18-m5]="C18" [C18-m6]="C18"
+ [C19-m5]="C19" [C19-m6]="C19"
 )
 for d in /verif/seeded/*/; do
   n=$(basename "$d"); [[ "$n" =~ $FILTER ]] || continue
